@@ -915,7 +915,8 @@ class Operations:
         degree = knotvector.degree
         oldspan = knotvector.span(node)
         oldmult = knotvector.mult(node)
-        one = node / node
+        one = knotvector[-1] - knotvector[0]
+        one /= one
         matrix = np.zeros((oldnpts + 1, oldnpts), dtype="object")
         for i in range(oldspan - degree + 1):
             matrix[i, i] = one
